@@ -114,7 +114,7 @@ def _mk(be, sa, rows, mom, spelling="generic", alt=0):
     if be == "object":
         return [mpbackend.make(sa, r, mom, False) for r in rows]
     if be == "numpy":
-        return [build.np_array(sa, rows, mom)]
+        return [build.np_array(sa, rows, mom, perm=alt)]
     return [ak.unflatten(build.ak_flat(sa, rows, mom, spelling, None, alt), [2, 0, 3, 1])]
 
 
@@ -145,14 +145,24 @@ def _getters(cell, elems, ctx):
     if rows is None:
         ctx.exclude("operand_not_representable")
         return
+    G = _mk(be, sa, rows, False)
     for spelling in (("generic", "momentum") if be == "awkward" else ("generic",)):
-        for alt in ((0, 1, 2) if spelling == "momentum" and d == 4 else (0,)):
-            for v in _mk(be, sa, rows, True, spelling, alt):
+        # alt: the spelling alternates of an Awkward record (E/e/energy...), the field order of a NumPy dtype
+        for alt in ((0, 1, 2) if (spelling == "momentum" and d == 4) or be == "numpy" else (0,)):
+            for v, g_ in zip(_mk(be, sa, rows, True, spelling, alt), G):
                 for syn, geo, dims in SYNONYMS:
                     if d not in dims:
                         continue
                     ctx.evaluation()
                     a, b = _call(lambda: getattr(v, syn)), _call(lambda: getattr(v, geo))
+                    c = _call(lambda: getattr(g_, geo))
+                    if c[0] == "exc" and isinstance(c[1], AttributeError):
+                        pass  # a momentum-only pair of names (Et / et, Mt / mt ...): the generic vector has neither
+                    elif c[0] != a[0] or (a[0] == "ok" and _bits(a[1]) != _bits(c[1])):
+                        _fail(ctx, cell, syn, "synonym", f".{syn} of the momentum vector -> {a[0]} {build.flat_values(a[1])[:3] if a[0] == 'ok' else a[1]!r} "
+                              f"but .{geo} of the generic vector with the same stored coordinates -> {c[0]} "
+                              f"{build.flat_values(c[1])[:3] if c[0] == 'ok' else c[1]!r} ({spelling} spelling, field order {alt}) for stored {rows[0]}")
+                        return
                     if a[0] != b[0]:
                         _fail(ctx, cell, syn, "synonym", f".{syn} -> {a[0]} {a[1]!r} but .{geo} -> {b[0]} {b[1]!r}")
                         return
@@ -314,7 +324,7 @@ def _flavor_ops(cell, elems, ctx):
     if be == "awkward":
         exprs += [("ak.sum(v, axis=-1)", lambda v, w: ak.sum(v, axis=-1)), ("ak.count_nonzero(v, axis=-1)", lambda v, w: ak.count_nonzero(v, axis=-1)),
                   ("ak.count(v, axis=-1)", lambda v, w: ak.count(v, axis=-1))]
-    spellings = [("generic", 0)] + ([("momentum", a) for a in range(3)] if be == "awkward" else [])
+    spellings = [("generic", 0)] + ([("momentum", a) for a in range(3)] if be == "awkward" else []) + ([("generic", 1), ("generic", 2)] if be == "numpy" else [])
     G = _mk(be, sa, rows, False)
     W = _mk(be, sa, rows[::-1], False)
     for sp, alt in spellings:
